@@ -715,6 +715,37 @@ func directed(c *Ctx, kind int, managed bool) (*xhist, error) {
 		x.xset(2, a, []byte("2"))
 		x.xcommit(2, at())
 		x.xcommit(1, at())
+	case 9: // Get of a DELETED key is a recorded read: re-created by another transaction => conflict
+		x.xbegin(1, true, rd())
+		x.xset(1, a, nil)
+		x.xcommit(1, at())
+		x.xbegin(2, true, rd())
+		x.xget(2, a)
+		x.xbegin(3, true, rd())
+		x.xset(3, a, []byte("again"))
+		x.xcommit(3, at())
+		x.xset(2, []byte("q"), []byte("1"))
+		x.xcommit(2, at())
+	case 10: // Get of a key that never existed is a recorded read too
+		x.xbegin(1, true, rd())
+		x.xget(1, []byte("nx"))
+		x.xbegin(2, true, rd())
+		x.xset(2, []byte("nx"), []byte("new"))
+		x.xcommit(2, at())
+		x.xset(1, []byte("q"), []byte("1"))
+		x.xcommit(1, at())
+	case 11: // a deleted key read and then deleted again by another transaction (still a write)
+		x.xbegin(1, true, rd())
+		x.xset(1, b, nil)
+		x.xcommit(1, at())
+		x.xbegin(2, true, rd())
+		x.xget(2, b)
+		x.xget(2, a)
+		x.xbegin(3, true, rd())
+		x.xset(3, b, nil)
+		x.xcommit(3, at())
+		x.xset(2, b, []byte("mine"))
+		x.xcommit(2, at())
 	case 8: // long-running transaction across many commits and conflict-log cleanups
 		x.xbegin(1, true, rd())
 		x.xget(1, a)
@@ -1089,14 +1120,14 @@ func runConcSchedules(c *Ctx, c03 bool) error {
 				kind = "window-entry"
 			}
 			x, err = windowSchedule(c, w, nk)
-		case i%5 == 0 && (i/5)%11 >= 9:
-			k := (i/5)%11 - 9
-			v := (i / 55) % 4
+		case i%5 == 0 && (i/5)%14 >= 12:
+			k := (i/5)%14 - 12
+			v := (i / 70) % 4
 			kind = fmt.Sprintf("directed-nonmono-%d", k)
 			x, err = directedNonMono(c, k, v)
 		case i%5 == 0:
-			k := (i / 5) % 11
-			managed := (i/55)%2 == 1
+			k := (i / 5) % 14
+			managed := (i/70)%2 == 1
 			kind = fmt.Sprintf("directed-%d", k)
 			x, err = directed(c, k, managed)
 		default:
@@ -1612,6 +1643,9 @@ func init() {
 			return err
 		}
 		if err := runWindowAfterReset(c); err != nil {
+			return err
+		}
+		if err := runC03CommitOrder(c); err != nil {
 			return err
 		}
 		if err := stressAtomic(c, concScale(c), false); err != nil {
